@@ -199,6 +199,23 @@ def _components(g: RG):
 
 def _raise_cg(snap, exc, graph, event):
     kernel.count(f"C18:raised-{type(exc).__name__}")
+    if snap is None:
+        return
+    ref, ev = snap["ref"], snap["ev"]
+    if not ev or not valid_event(ref, ev):
+        kernel.count("C18:invalid-input-skipped")
+        return
+    if any(c[0] in {i for i, _ in c[1]} for c in ev):
+        # a self-intervened EVENT variable (X_x = x): ID* removes such conjuncts before it builds the graph, the
+        # construction on its own loses the node (unchanged tree); outside what the statement lists, counted only
+        kernel.count("C18:raised-with-a-self-intervened-event-variable")
+        return
+    case = {"graph": gd_of(ref), "event": ev}
+    if mon_id.cards_hint():
+        case["cards"] = mon_id.cards_hint()
+    kernel.violation("C18", "produces-a-graph", f"make_counterfactual_graph raised {type(exc).__name__}: {exc} for the "
+                     f"event {gev.key(ev)} (no self-intervened event variable): nothing was produced for a conjunction "
+                     f"the statement quantifies over", case=case)
 
 
 def install_cg():
